@@ -138,6 +138,40 @@ M('c12-wsgi-default-when-unset', 'C12', 'R1', RQ,
             return default_when_empty
 """)
 
+# refactoring + break (k4-c12-1: the two except arms folded into one `except Exception` with an isinstance test)
+_ASGI_TWO_ARMS = """        except errors.MediaNotFoundError as err:
+            self._media_error = err
+            if default_when_empty is not _UNSET:
+                return default_when_empty
+            raise
+        except Exception as err:
+            self._media_error = err
+            raise
+        finally:
+            if handler.exhaust_stream:
+                await self.stream.exhaust()
+"""
+M('c12-asgi-folded-arm-default-before-storing-error', 'C12', 'R1', AR, _ASGI_TWO_ARMS, """        except Exception as err:
+            if default_when_empty is _UNSET or not isinstance(
+                err, errors.MediaNotFoundError
+            ):
+                self._media_error = err
+                raise
+            return default_when_empty
+        finally:
+            if handler.exhaust_stream:
+                await self.stream.exhaust()
+""", also=('C06',))
+M('c12-asgi-folded-arm-default-for-any-error', 'C12', 'R1', AR, _ASGI_TWO_ARMS, """        except Exception as err:
+            self._media_error = err
+            if default_when_empty is _UNSET:
+                raise
+            return default_when_empty
+        finally:
+            if handler.exhaust_stream:
+                await self.stream.exhaust()
+""", also=('C06',))
+
 # ----------------------------------------------------------------------- R2
 M('c12-json-wrong-except', 'C12', 'R2', JS, "        except ValueError as err:\n", "        except TypeError as err:\n", also=('C04',))
 M('c12-json-empty-not-detected', 'C12', 'R2', JS,
@@ -178,6 +212,34 @@ M('c12-json-async-serialize-latin1', 'C12', 'R3', JS,
     #   Request.render_body() shortcut optimization.
     def _serialize_b""")
 M('c12-json-deserialize-lenient', 'C12', 'R3', JS, "return self._loads(data.decode())", "return self._loads(data.decode('utf-8', 'replace'))")
+# R3, loader-argument clause (s-c12-2 ... s7-c12-3, s11-c12-1): every JSON loader call on the deserialisation path gets decoded text
+M('c12-json-loads-raw-bytes', 'C12', 'R3', JS, "return self._loads(data.decode())", "return self._loads(data)")
+M('c12-json-stdlib-fast-path-raw-bytes', 'C12', 'R3', JS, "            return self._loads(data.decode())",
+  "            if self._loads is json.loads:\n                return json.loads(data)\n            return self._loads(data.decode())")
+M('c12-json-loader-alias-raw-on-large-bodies', 'C12', 'R3', JS, "            return self._loads(data.decode())",
+  "            loads = self._loads\n            if len(data) > 4096:\n                return loads(memoryview(data))\n            return loads(data.decode())")
+M('c12-json-text-rebound-on-one-branch', 'C12', 'R3', JS, "            return self._loads(data.decode())",
+  "            text = data if data[:1] in (b'{', b'[') else data.decode()\n            return self._loads(text)")
+M('c12-json-helper-gets-raw-bytes', 'C12', 'R3', JS,
+  """            return self._loads(data.decode())
+        except ValueError as err:
+            raise errors.MediaMalformedError('JSON') from err
+""", """            return self._parse(data)
+        except ValueError as err:
+            raise errors.MediaMalformedError('JSON') from err
+
+    def _parse(self, raw):
+        return json.loads(raw) if self._loads is json.loads else self._loads(raw.decode())
+""")
+M('c12-json-deserialize-stream-to-json-load', 'C12', 'R3', JS, "        return self._deserialize(stream.read())",
+  """        if self._loads is json.loads:
+            try:
+                return json.load(stream)
+            except ValueError as err:
+                raise errors.MediaMalformedError('JSON') from err
+        return self._deserialize(stream.read())""")
+M('c12-json-shortcut-slot-bound-to-loader', 'C12', 'R3', JS, "            self._deserialize_sync = self._deserialize",
+  "            self._deserialize_sync = self._loads", also=('C08',))
 M('c12-urlencoded-no-doseq', 'C12', 'R3', UE, "urlencode(media, doseq=True)", "urlencode(media, doseq=False)")
 M('c12-urlencoded-serialize-utf16', 'C12', 'R3', UE, "urlencode(media, doseq=True).encode()", "urlencode(media, doseq=True).encode('utf-16')")
 M('c12-urlencoded-deserialize-utf16', 'C12', 'R3', UE, "body_str = body.decode('ascii')", "body_str = body.decode('utf-16')")
